@@ -65,7 +65,15 @@ def opNames : List Str := [
   ['o','r'], ['a','n','d'], ['n','o','t'],
   ['<'], ['>'], ['=','='], ['>','='], ['<','='], ['!','='], ['i','n'], ['n','o','t',' ','i','n'], ['i','s'], ['i','s',' ','n','o','t'],
   ['|'], ['^'], ['&'], ['<','<'], ['>','>'], ['+'], ['-'], ['*'], ['/'], ['%'], ['~'],
-  ['/','/'], ['@'], ['*','*'], ['<','>']]
+  ['/','/'], ['@'], ['*','*'], ['<','>'],
+  ['i','f'], ['e','l','s','e'], ['l','a','m','b','d','a'], [':'], [',']]
+
+/-- codes of the words and punctuation of `expression` / `lambdadef` (never operators of a table) -/
+def kwIf : Nat := 28
+def kwElse : Nat := 29
+def kwLambda : Nat := 30
+def kwColon : Nat := 31
+def kwComma : Nat := 32
 
 def opCode (s : Str) : Option Nat := opNames.findIdx? (· == s)
 
@@ -182,11 +190,13 @@ inductive PyAst where
   | binOp (op : Nat) (l r : PyAst)
   | boolOp (op : Nat) (vs : List PyAst)
   | compare (l : PyAst) (ops : List Nat) (cs : List PyAst)
+  | ifExp (test body orelse : PyAst)
+  | lambda (params : List LarkTree) (body : PyAst)
   | bad
 deriving Inhabited
 
 inductive Kind where
-  | leaf | group | unary | arith | compare
+  | leaf | group | unary | arith | compare | ifexp | lambda
   | bool (op : Nat)
 deriving DecidableEq, Repr, Inhabited
 
@@ -204,6 +214,8 @@ def kindOfName (name : Str) : Kind :=
   else if name = ['s','u','m'] then .arith
   else if name = ['t','e','r','m'] then .arith
   else if name = ['g','r','o','u','p','_','e','x','p','r'] then .group
+  else if name = ['t','e','r','n','a','r','y','_','t','e','s','t'] then .ifexp
+  else if name = ['l','a','m','b','d','a','d','e','f'] then .lambda
   else .leaf
 
 mutual
@@ -265,6 +277,12 @@ def build (name : Str) (orig : LarkTree) (xs : List PyAst) : PyAst :=
       | some (ops, cs) => .compare x ops cs
       | none => .bad
     | [] => .bad
+  | .ifexp => match xs with
+    | [b, c, e] => .ifExp c b e
+    | _ => .bad
+  | .lambda => match xs with
+    | [.leaf ps, body] => .lambda ps.children body
+    | _ => .bad
 
 mutual
 def toAst : LarkTree → PyAst
@@ -376,7 +394,7 @@ def isIdChar (c : Char) : Bool := c.isAlphanum || c == '_'
 def keywordOps : List Str := [['o','r'], ['a','n','d'], ['n','o','t'], ['i','n'], ['i','s'], ['i','f'], ['e','l','s','e'], ['l','a','m','b','d','a']]
 def constNames : List Str := [['T','r','u','e'], ['F','a','l','s','e'], ['N','o','n','e']]
 def twoCharOps : List Str := [['=','='], ['!','='], ['<','='], ['>','='], ['<','<'], ['>','>'], ['<','>'], ['/','/'], ['*','*']]
-def oneCharOps : List Char := ['<', '>', '|', '^', '&', '+', '-', '*', '/', '%', '~', '@']
+def oneCharOps : List Char := ['<', '>', '|', '^', '&', '+', '-', '*', '/', '%', '~', '@', ':', ',']
 
 def isHexChar (c : Char) : Bool := c.isDigit || ('a' ≤ c && c ≤ 'f') || ('A' ≤ c && c ≤ 'F')
 
@@ -422,30 +440,43 @@ def lexRaw : Nat → Str → Option (List LTok)
         else none
       | [] => if oneCharOps.contains c then some [.op [c]] else none
 
+/-- after these words / signs an `or_test` (hence an inversion) may start -/
+def startsTest (a : Str) : Bool :=
+  a = ['o','r'] || a = ['a','n','d'] || a = ['i','f'] || a = ['e','l','s','e'] || a = [':']
+
 /-- What lark's contextual lexer does with keyword-shaped words, and the two-word operators.
     * Where an operand is expected, `or`/`and`/`in`/`is` can only be names (the keyword terminals are not acceptable there, and
       grammar.lark does not reserve them); `not` is the prefix operator only where an inversion may start (at the beginning,
       after `(`, `or`, `and`, `not`) and a name elsewhere (e.g. after `==` or `-`).
     * Where an operator is expected, `is not` and `not in` are one operator each (`is (not x)` is impossible: an inversion is
       not an operand of a comparison).
-    `operand`: an operand is expected next; `notOk`: an inversion may start here. -/
-def contextualize : Bool → Bool → List LTok → List LTok
-  | _, _, [] => []
-  | true, notOk, .op w :: rest =>
-    if w = ['n','o','t'] then
-      if notOk then .op w :: contextualize true true rest else .name w :: contextualize false false rest
-    else if w = ['o','r'] ∨ w = ['a','n','d'] ∨ w = ['i','n'] ∨ w = ['i','s'] then .name w :: contextualize false false rest
-    else .op w :: contextualize true false rest
-  | true, _, .lp :: rest => .lp :: contextualize true true rest
-  | true, _, t :: rest => t :: contextualize false false rest
-  | false, _, .op a :: .op b :: rest =>
-    if a = ['i','s'] ∧ b = ['n','o','t'] then .op ['i','s',' ','n','o','t'] :: contextualize true false rest
-    else if a = ['n','o','t'] ∧ b = ['i','n'] then .op ['n','o','t',' ','i','n'] :: contextualize true false rest
-    else .op a :: contextualize true (a = ['o','r'] ∨ a = ['a','n','d']) (.op b :: rest)
-  | false, _, .op a :: rest => .op a :: contextualize true (a = ['o','r'] ∨ a = ['a','n','d']) rest
-  | false, _, .lp :: rest => .lp :: contextualize true true rest
-  | false, _, t :: rest => t :: contextualize false false rest
+    (states: see `contextualize`) -/
+def startsExpression (a : Str) : Bool := a = ['e','l','s','e'] || a = [':']
 
-def lex (s : Str) : Option (List LTok) := (lexRaw (s.length + 1) s).map (contextualize true true)
+/-- `operand`: an operand is expected next; `notOk`: an inversion (`not …`) may start here; `lamOk`: a whole `expression`
+    (hence a `lambda`) may start here — at the beginning, after `(`, `else` and the `:` of a lambda. `if` / `else` are names
+    where an operand is expected; `lambda` is a name where no `expression` may start. -/
+def contextualize : Bool → Bool → Bool → List LTok → List LTok
+  | _, _, _, [] => []
+  | true, notOk, lamOk, .op w :: rest =>
+    if w = ['n','o','t'] then
+      if notOk then .op w :: contextualize true true false rest else .name w :: contextualize false false false rest
+    else if w = ['o','r'] ∨ w = ['a','n','d'] ∨ w = ['i','n'] ∨ w = ['i','s'] ∨ w = ['i','f'] ∨ w = ['e','l','s','e'] then
+      .name w :: contextualize false false false rest
+    else if w = ['l','a','m','b','d','a'] then
+      if lamOk then .op w :: contextualize true false false rest else .name w :: contextualize false false false rest
+    else if w = [':'] then .op w :: contextualize true true true rest    -- `lambda:` — an expression starts
+    else .op w :: contextualize true false false rest
+  | true, _, _, .lp :: rest => .lp :: contextualize true true true rest
+  | true, _, _, t :: rest => t :: contextualize false false false rest
+  | false, _, _, .op a :: .op b :: rest =>
+    if a = ['i','s'] ∧ b = ['n','o','t'] then .op ['i','s',' ','n','o','t'] :: contextualize true false false rest
+    else if a = ['n','o','t'] ∧ b = ['i','n'] then .op ['n','o','t',' ','i','n'] :: contextualize true false false rest
+    else .op a :: contextualize true (startsTest a) (startsExpression a) (.op b :: rest)
+  | false, _, _, .op a :: rest => .op a :: contextualize true (startsTest a) (startsExpression a) rest
+  | false, _, _, .lp :: rest => .lp :: contextualize true true true rest
+  | false, _, _, t :: rest => t :: contextualize false false false rest
+
+def lex (s : Str) : Option (List LTok) := (lexRaw (s.length + 1) s).map (contextualize true true true)
 
 end Tranp.Ladder
